@@ -178,7 +178,10 @@ Definition spec_check (c : case) : option bool :=
              else if estimator_clear c pi pq then
                (* finite, never below the observed proportion, 0 when nothing differs *)
                Z.eqb (fl_class f) 0 &&
-               Qle_bool (observed_p c pq - (1 # 1000000000)) (fl_q f) &&
+               (Qle_bool (observed_p c pq - (1 # 1000000000)) (fl_q f) ||
+                (* a finite distance above the cap NT_DIST_OVER is replaced, like an undefined one, by the
+                   matrix-wide substitute 2*max (0 when the matrix holds no positive finite distance) *)
+                (negb (Qeq_bool (observed_p c pq) 0) && Qle_bool mx (fl_q f))) &&
                (negb (Qeq_bool (observed_p c pq) 0) || Qle_bool (Qabs (fl_q f)) (1 # 1000000000))
              else
                (* undefined: NaN, or the matrix-wide substitute 2*max, i.e. a value that no other entry exceeds
